@@ -371,14 +371,24 @@ func codeFor(r *Req, now time.Time) string {
 	return mangleCode(code, cs.Mangle)
 }
 
-func buildHTTP(method, path string, body []byte, closeHdr bool) []byte {
+func buildHTTP(method, path string, body []byte, closeHdr bool, ctype, query string) []byte {
 	var sb strings.Builder
+	if query != "" && !strings.Contains(path, "?") {
+		path += "?" + query
+	}
 	fmt.Fprintf(&sb, "%s %s HTTP/1.1\r\nHost: otp.test\r\nUser-Agent: verif-sim\r\n", method, path)
 	if closeHdr {
 		sb.WriteString("Connection: close\r\n")
 	}
 	if len(body) > 0 || method == "POST" || method == "PUT" || method == "PATCH" {
-		fmt.Fprintf(&sb, "Content-Type: application/json\r\nContent-Length: %d\r\n", len(body))
+		switch ctype {
+		case "":
+			sb.WriteString("Content-Type: application/json\r\n")
+		case "-":
+		default:
+			sb.WriteString("Content-Type: " + ctype + "\r\n")
+		}
+		fmt.Fprintf(&sb, "Content-Length: %d\r\n", len(body))
 	}
 	sb.WriteString("\r\n")
 	return append([]byte(sb.String()), body...)
@@ -429,7 +439,7 @@ func (w *world) prepare(cc *clientConn, r *Req, role string) (*sent, []byte) {
 		wire = []byte(r.Raw)
 		s.method = "RAW"
 	} else {
-		wire = buildHTTP(r.Method, r.Path, s.body, r.Close)
+		wire = buildHTTP(r.Method, r.Path, s.body, r.Close, r.CType, r.Query)
 	}
 	return s, wire
 }
@@ -650,7 +660,7 @@ func (w *world) judge(cc *clientConn, s *sent, resp *response) {
 		if !s.exp.Want2xx {
 			verifh.Count("oracle.expect-failure-status", 1)
 			if is2xx(resp.status) {
-				w.fail(clause, ep, "success-status-although-library-fails", fmt.Sprintf("%s %s body=%s -> %d %s; model: %s", s.method, s.path, clipB(s.body, 300), resp.status, clipB(resp.body, 200), s.exp.Desc))
+				w.fail(clause, ep, "success-status-although-library-fails", fmt.Sprintf("%s %s body=%s -> %d %s; model: %s", s.method, shown(s), clipB(s.body, 300), resp.status, clipB(resp.body, 200), s.exp.Desc))
 			}
 			return
 		}
@@ -659,12 +669,12 @@ func (w *world) judge(cc *clientConn, s *sent, resp *response) {
 				verifh.Count("oracle.rejection-reported-as-error-status", 1)
 				return
 			}
-			w.fail(clause, ep, witness+":status", fmt.Sprintf("%s %s body=%s -> %d %s; model expects success: %s", s.method, s.path, clipB(s.body, 300), resp.status, clipB(resp.body, 200), s.exp.Desc))
+			w.fail(clause, ep, witness+":status", fmt.Sprintf("%s %s body=%s -> %d %s; model expects success: %s", s.method, shown(s), clipB(s.body, 300), resp.status, clipB(resp.body, 200), s.exp.Desc))
 			return
 		}
 		verifh.Count("oracle.answers-compared-with-library", 1)
 		if msg := guardedCheck(s.exp.Check, resp.body); msg != "" {
-			w.fail(clause, ep, witness, fmt.Sprintf("%s %s body=%s -> %d %s: %s; model: %s", s.method, s.path, clipB(s.body, 300), resp.status, clipB(resp.body, 200), msg, s.exp.Desc))
+			w.fail(clause, ep, witness, fmt.Sprintf("%s %s body=%s -> %d %s: %s; model: %s", s.method, shown(s), clipB(s.body, 300), resp.status, clipB(resp.body, 200), msg, s.exp.Desc))
 			return
 		}
 		if ep == "/otp/secret" && s.seq {
@@ -871,7 +881,7 @@ func (w *world) retry(p *sent) {
 	s, wire := w.prepare(cc, &r, p.role)
 	s.body = p.body // same bytes (code already substituted)
 	if r.Raw == "" {
-		wire = buildHTTP(p.method, p.path, p.body, true)
+		wire = buildHTTP(p.method, p.path, p.body, true, p.req.CType, p.req.Query)
 	}
 	s.retried = true
 	w.deliver(cc, s, wire, nil, nil, 0)
@@ -933,6 +943,20 @@ func (w *world) checkTrip(ev *Event, what string) {
 		}
 	}
 	verifrt.ResetMeter(0)
+}
+
+// shown: the path as sent, with the decorations that must not matter.
+func shown(s *sent) string {
+	p := s.path
+	if s.req != nil {
+		if s.req.Query != "" && !strings.Contains(p, "?") {
+			p += "?" + s.req.Query
+		}
+		if s.req.CType != "" {
+			p += " [Content-Type: " + s.req.CType + "]"
+		}
+	}
+	return p
 }
 
 func reqDesc(r *Req) string {
